@@ -48,6 +48,8 @@ type World struct {
 	tipHash    [32]byte
 	midHash    [32]byte
 	blk2Hash   [32]byte // a base block with two transactions
+	blk4Hash   [32]byte // a base block with four transactions
+	cb2        *btc.Tx  // coinbase of B2
 	unkHash    [2][32]byte
 	b1, b2     []byte // the next two blocks, not given to the node
 	b1Hash     [32]byte
@@ -188,6 +190,9 @@ func newWorld(dir string) *World {
 		if h == 105 {
 			extra = append(extra, w.spend(cbs[0], 5000))
 		}
+		if h == 106 {
+			extra = append(extra, w.spend(cbs[2], 5000), w.spend(cbs[3], 5000), w.spend(cbs[4], 5000))
+		}
 		cb := w.coinbase(h, extra)
 		cbs = append(cbs, cb)
 		raw := w.mine(parent, blockTime0+h*blockStep, append([]*btc.Tx{cb}, extra...))
@@ -211,6 +216,9 @@ func newWorld(dir string) *World {
 		if h == 105 {
 			w.blk2Hash = parent
 		}
+		if h == 106 {
+			w.blk4Hash = parent
+		}
 	}
 	ch.Blocks.Idle()
 	w.baseTip = ch.LastBlock()
@@ -229,6 +237,7 @@ func newWorld(dir string) *World {
 	w.b1 = w.mine(parent, blockTime0+(baseBlocks+1)*blockStep, []*btc.Tx{w.cb1, w.tx1})
 	w.b1Hash = btc.NewSha2Hash(w.b1[:80]).Hash
 	cb2 := w.coinbase(baseBlocks+2, nil)
+	w.cb2 = cb2
 	w.b2 = w.mine(w.b1Hash, blockTime0+(baseBlocks+2)*blockStep, []*btc.Tx{cb2})
 	w.b2Hash = btc.NewSha2Hash(w.b2[:80]).Hash
 	w.unkHash[0] = btc.Sha2Sum([]byte("verif-c18-unknown-0"))
@@ -579,10 +588,7 @@ func (w *World) concretise(cl Class, nodeNonce []byte, rnd *rand.Rand) ([]byte, 
 	if !ok {
 		return nil, fmt.Errorf("class %s does not exist for the grammar of %s", cl.K, cl.Cmd)
 	}
-	name := cl.Cmd
-	if name == "unknown" {
-		name = "verifxyz"
-	}
+	name := wireName(cl.Cmd)
 	return frame(name, pl), nil
 }
 
